@@ -337,7 +337,20 @@ func ruleObjectAPI(c *Ctx) {
 				continue // loop exit handled below
 			}
 			head := `34 esc([]byte(L:elem.Name)) 34 58 value(L:elem.Iter)`
+			// the separator may equally be written in front of every member but the first
+			notFirst := hasCond(sp, "L:i", token.GTR, "0") || hasCond(sp, "L:i", token.NEQ, "0") || hasCond(sp, "L:i", token.GEQ, "1")
+			first := hasCond(sp, "L:i", token.LEQ, "0") || hasCond(sp, "L:i", token.EQL, "0") || hasCond(sp, "L:i", token.LSS, "1")
 			switch {
+			case errNil && notFirst && !first && !more && !last:
+				nComma++
+				if seq != "44 "+head {
+					bad = "a member that is not the first is written as `" + seq + "`, expected ,\"name\":value"
+				}
+			case errNil && first && !notFirst && !more && !last:
+				nLast++
+				if seq != head {
+					bad = "the first member is written as `" + seq + "`, expected \"name\":value without a comma"
+				}
 			case errNil && more && !last:
 				nComma++
 				if seq != head+" 44" {
